@@ -103,3 +103,128 @@ Proof.
   cbn [negb andb] in H. destruct (N.eqb_spec (skip_blank 0 rows (insert_base (defs_from 0 rows) s e l0)) s) as [E|E]; cbn [negb] in H; [|discriminate].
   injection H as _ <-. exact E.
 Qed.
+
+(* ---------- nothing interleaves: an in-place renumbering keeps the program ascending ---------- *)
+
+Lemma defs_from_in rows : forall k r p, In (r, p) (defs_from k rows) ->
+  k <= r /\ nth_error rows (N.to_nat (r - k)) = Some (Some p).
+Proof.
+  induction rows as [|o rest IH]; intros k r p H; [contradiction|].
+  destruct o as [n|]; cbn [defs_from] in H.
+  - destruct H as [E|H].
+    + injection E as <- <-. split; [lia|]. rewrite N.sub_diag. reflexivity.
+    + destruct (IH _ _ _ H) as [L E]. split; [lia|].
+      replace (N.to_nat (r - k)) with (S (N.to_nat (r - (k + 1)))) by lia. exact E.
+  - destruct (IH _ _ _ H) as [L E]. split; [lia|].
+    replace (N.to_nat (r - k)) with (S (N.to_nat (r - (k + 1)))) by lia. exact E.
+Qed.
+
+(* skip_blank never moves back, and stops at the first row that holds a line *)
+Lemma skip_blank_ge rows : forall k ins, ins <= skip_blank k rows ins.
+Proof.
+  induction rows as [|o rest IH]; intros k ins; cbn [skip_blank]; [lia|].
+  destruct ((ins =? k) && match o with None => true | Some _ => false end); [specialize (IH (k + 1) (ins + 1)) | specialize (IH (k + 1) ins)]; lia.
+Qed.
+Lemma skip_blank_stops rows : forall k ins r p, k <= r -> ins <= r -> nth_error rows (N.to_nat (r - k)) = Some (Some p) ->
+  skip_blank k rows ins <= r.
+Proof.
+  induction rows as [|o rest IH]; intros k ins r p Hk Hi Hn.
+  - destruct (N.to_nat (r - k)); discriminate.
+  - cbn [skip_blank]. destruct (N.eq_dec r k) as [->|Ne].
+    + rewrite N.sub_diag in Hn. cbn in Hn. injection Hn as ->. 
+      destruct (N.eqb_spec ins k) as [->|Ne2]; cbn [andb].
+      * clear IH. assert (G : forall rows k ins, ins <= k -> skip_blank (k + 1) rows ins = ins).
+        { clear. induction rows as [|o rest IH]; intros k ins H; cbn [skip_blank]; [reflexivity|].
+          destruct (N.eqb_spec ins (k + 1)); [lia|]. cbn [andb]. apply IH. lia. }
+        rewrite G by lia. lia.
+      * assert (G : forall rows k ins, ins <= k -> skip_blank (k + 1) rows ins = ins).
+        { clear. induction rows as [|o rest IH]; intros k ins H; cbn [skip_blank]; [reflexivity|].
+          destruct (N.eqb_spec ins (k + 1)); [lia|]. cbn [andb]. apply IH. lia. }
+        rewrite G by lia. lia.
+    + assert (Hn' : nth_error rest (N.to_nat (r - (k + 1))) = Some (Some p)).
+      { replace (N.to_nat (r - k)) with (S (N.to_nat (r - (k + 1)))) in Hn by lia. exact Hn. }
+      destruct ((ins =? k) && match o with None => true | Some _ => false end) eqn:C.
+      * apply andb_prop in C as [C _]. apply N.eqb_eq in C. subst ins. apply (IH (k + 1) (k + 1) r p); [lia | lia | exact Hn'].
+      * apply (IH (k + 1) ins r p); [lia | lia | exact Hn'].
+Qed.
+
+(* insert_base: one past the last unselected row whose number is below the first new number *)
+Definition qual (s e l0 : N) (d : N * N) : bool := negb (in_sel s e (fst d)) && (snd d <? l0).
+Lemma insert_base_fold defs s e l0 : forall acc,
+  let b := fold_left (fun acc d => let '(row, p) := d in if negb (in_sel s e row) && (p <? l0) && (acc <=? row) then row + 1 else acc) defs acc in
+  acc <= b /\ (forall d, In d defs -> qual s e l0 d = true -> fst d + 1 <= b) /\
+  (forall X, acc <= X -> (forall d, In d defs -> qual s e l0 d = true -> fst d + 1 <= X) -> b <= X).
+Proof.
+  induction defs as [|[row p] rest IH]; intros acc; cbn [fold_left]; cbv beta iota.
+  - repeat split; try lia. intros d [].
+  - set (acc' := if negb (in_sel s e row) && (p <? l0) && (acc <=? row) then row + 1 else acc).
+    destruct (IH acc') as (A & B & C). cbv zeta in *.
+    assert (Ha : acc <= acc').
+    { unfold acc'. destruct (negb (in_sel s e row) && (p <? l0)); cbn [andb]; [|lia]. destruct (N.leb_spec acc row); lia. }
+    repeat split.
+    + eapply N.le_trans; [exact Ha | exact A].
+    + intros d [<-|Hd] Hq; [|apply B; assumption].
+      unfold qual in Hq. cbn [fst snd] in Hq.
+      assert (Hr : row + 1 <= acc').
+      { unfold acc'. rewrite Hq. cbn [andb]. destruct (N.leb_spec acc row); lia. }
+      cbn [fst]. eapply N.le_trans; [exact Hr | exact A].
+    + intros X HX Hall. apply C.
+      * unfold acc'. destruct (negb (in_sel s e row) && (p <? l0)) eqn:Q; cbn [andb]; [|exact HX].
+        destruct (N.leb_spec acc row); [|exact HX]. apply (Hall (row, p)); [left; reflexivity | exact Q].
+      * intros d Hd. apply Hall. right. exact Hd.
+Qed.
+
+(* accepted in place: every line in front of the block is numbered below the first new number and every line behind it
+   above the last one, provided the program's numbers ascend - so the renumbered program ascends again: nothing interleaves *)
+Theorem build_in_place_keeps_order rows s e l0 dl maxn m ins :
+  build rows s e l0 dl false maxn = Accepted m ins ->
+  (forall r1 p1 r2 p2, In (r1, p1) (defs_from 0 rows) -> In (r2, p2) (defs_from 0 rows) -> r1 < r2 -> p1 < p2) ->
+  let ln := l0 + dl * (lenN (keys_of (map snd (filter (fun d => in_sel s e (fst d)) (defs_from 0 rows)))) - 1) in
+  (exists r p, In (r, p) (defs_from 0 rows) /\ in_sel s e r = true) /\
+  (forall r p, In (r, p) (defs_from 0 rows) -> r < s -> p < l0) /\
+  (forall r p, In (r, p) (defs_from 0 rows) -> e < r -> ln < p).
+Proof.
+  intros H Hasc ln.
+  pose proof (build_no_move _ _ _ _ _ _ _ _ H) as Hins.
+  pose proof (build_no_collision _ _ _ _ _ _ _ _ _ H) as Hcol. cbv zeta in Hcol. fold ln in Hcol.
+  (* the insert position *)
+  assert (Hpos : skip_blank 0 rows (insert_base (defs_from 0 rows) s e l0) = s).
+  { unfold build in H. destruct ((maxn <? l0) || (dl <? 1) || (maxn <? dl)); [discriminate|].
+    destruct (keys_of _); [discriminate|]. destruct (maxn <? _); [discriminate|].
+    destruct (existsb _ _); [discriminate|]. destruct (existsb _ _); [discriminate|].
+    cbn [negb andb] in H. destruct (N.eqb_spec (skip_blank 0 rows (insert_base (defs_from 0 rows) s e l0)) s) as [E|E]; [exact E|discriminate]. }
+  (* the selection is not empty *)
+  assert (Hsel : exists r p, In (r, p) (defs_from 0 rows) /\ in_sel s e r = true).
+  { destruct (build_mapping _ _ _ _ _ _ _ _ _ H) as (_ & _ & Hne & _). cbv zeta in Hne.
+    destruct (filter (fun d => in_sel s e (fst d)) (defs_from 0 rows)) as [|[r p] t] eqn:F; [exfalso; apply Hne; reflexivity|].
+    assert (I : In (r, p) (filter (fun d => in_sel s e (fst d)) (defs_from 0 rows))) by (rewrite F; left; reflexivity).
+    apply filter_In in I as [I1 I2]. exists r, p. split; assumption. }
+  destruct (insert_base_fold (defs_from 0 rows) s e l0 0) as (_ & Blow & Bup). cbv zeta in Blow, Bup.
+  fold (insert_base (defs_from 0 rows) s e l0) in Blow, Bup.
+  set (B := insert_base (defs_from 0 rows) s e l0) in *.
+  pose proof (skip_blank_ge rows 0 B) as Hge. rewrite Hpos in Hge.
+  destruct Hsel as (rs & ps & Hrs & Hsrs).
+  assert (Hse : s <= rs <= e) by (unfold in_sel in Hsrs; apply andb_prop in Hsrs as [X Y]; apply N.leb_le in X; apply N.leb_le in Y; lia).
+  split; [exists rs, ps; split; assumption|]. split.
+  - (* in front of the block *)
+    intros r p Hin Hr.
+    destruct (N.lt_ge_cases p l0) as [|Hp]; [assumption|exfalso].
+    assert (Hnot : in_sel s e r = false) by (unfold in_sel; destruct (N.leb_spec s r); [lia | reflexivity]).
+    (* every qualifying line lies before row r, so the base is at most r, and row r holds a line: the position stops there *)
+    assert (HB : B <= r).
+    { apply Bup; [lia|]. intros [r' p'] Hd Hq. unfold qual in Hq. cbn [fst snd] in *.
+      apply andb_prop in Hq as [Hq1 Hq2]. apply N.ltb_lt in Hq2.
+      destruct (N.lt_ge_cases r' r) as [|Hge']; [lia|exfalso].
+      destruct (N.eq_dec r' r) as [->|Hne].
+      - (* same row: same line *)
+        destruct (defs_from_in _ _ _ _ Hd) as [_ E1]. destruct (defs_from_in _ _ _ _ Hin) as [_ E2]. rewrite E1 in E2. injection E2 as ->. lia.
+      - assert (r < r') by lia. pose proof (Hasc _ _ _ _ Hin Hd H0). lia. }
+    destruct (defs_from_in _ _ _ _ Hin) as [_ En].
+    pose proof (skip_blank_stops rows 0 B r p ltac:(lia) HB En) as Hstop. rewrite Hpos in Hstop. lia.
+  - (* behind the block *)
+    intros r p Hin Hr.
+    assert (Hnot : in_sel s e r = false) by (unfold in_sel; destruct (N.leb_spec r e); [lia | rewrite andb_false_r; reflexivity]).
+    destruct (Hcol r p Hin Hnot) as [Hlt|Hgt]; [exfalso | exact Hgt].
+    assert (Q : qual s e l0 (r, p) = true) by (unfold qual; cbn [fst snd]; rewrite Hnot; cbn [negb andb]; apply N.ltb_lt; exact Hlt).
+    pose proof (Blow (r, p) Hin Q) as X. cbn [fst] in X. lia.
+Qed.
